@@ -131,14 +131,12 @@ def findOwner (x : String) : Stack → Except Err (String × Bool)
       else findOwner x rest
 
 /-- names a function / class namespace treats as nonlocal, in the order the code visits them;
-    for a method the walk stops at `__class__` (the `break` in the source) -/
+    a method skips `__class__` (PEP 3135's implicit cell) and notes that zero-argument `super()` is used -/
 def nonlocalCandidates (kind : ScopeKind) (s : SymScope) (isMethod : Bool) : List String × Bool :=
   match kind with
   | .function =>
     let all := s.frees ++ s.nonlocals
-    if isMethod then
-      let before := all.takeWhile (· != "__class__")
-      (before, before.length < all.length)
+    if isMethod then (all.filter (· != "__class__"), all.contains "__class__")
     else (all, false)
   | _ => ((s.symbols.filter fun i => i.isNonlocal || i.isFree).map (·.name), false)
 
